@@ -1,10 +1,12 @@
 #!/venv/bin/python
 """Collect an evaluated seeded change into /verif/seeded/<name>/ (patch.diff, demo.py, notes.md, meta.json)."""
 import glob, json, os, re, subprocess, sys
-name = sys.argv[1]            # e.g. C07 or C07b
-prop = sys.argv[2] if len(sys.argv) > 2 else name[:3]
-wt, out = f"/tmp/seed/{name}", f"/tmp/seed/out_{name}"
-dst = f"/verif/seeded/{name}"
+name = sys.argv[1]            # e.g. C07
+prop = name[:3]
+root = os.environ.get("SEEDROOT", "/tmp/seed")
+suffix = os.environ.get("SEEDSUFFIX", "")          # e.g. "b" for the second round
+wt, out = f"{root}/{name}", f"{root}/out_{name}"
+dst = f"/verif/seeded/{name}{suffix}"
 os.makedirs(dst, exist_ok=True)
 diff = subprocess.run(["git", "-C", wt, "diff"], capture_output=True, text=True).stdout
 open(f"{dst}/patch.diff", "w").write(diff)
@@ -12,7 +14,7 @@ for f in ("demo.py", "notes.md"):
     if os.path.exists(f"{out}/{f}"):
         open(f"{dst}/{f}", "w").write(open(f"{out}/{f}").read())
 caught = {}
-for log in glob.glob(f"/tmp/seed/check_{name}_*.log"):
+for log in glob.glob(f"{root}/check_{name}_*.log"):
     chk = log.rsplit("_", 1)[1][:-4]
     txt = open(log).read()
     sigs = sorted(set(re.findall(r"violation signature: (\S+)", txt)))
@@ -30,10 +32,10 @@ meta = {
     "needs_to_manifest": (re.search(r"(?is)(trigger|manifest)[^\n]*\n(.{0,900})", notes) or [None, "", "see notes.md"])[2].strip()[:900] if notes else "see notes.md",
     "origin": "written by an independent sub-agent that was given only the property text and a scratch worktree",
     "confirmed_by_me": {
-        "demo_with_change_exit": 1 if "exit=1" in ex(f"/tmp/seed/eval_{name}.log").split("WITHOUT")[0] else None,
-        "commands": [f"cd /tmp/seed/{name} && PYTHONPATH=/tmp/seed/{name}/src /venv/bin/python demo.py  -> exit 1",
+        "demo_with_change_exit": 1 if "exit=1" in ex(f"{root}/eval_{name}.log").split("WITHOUT")[0] else None,
+        "commands": [f"cd <worktree with patch.diff applied> && PYTHONPATH=<worktree>/src /venv/bin/python demo.py  -> exit 1",
                      "cd /repo && PYTHONPATH=/repo/src /venv/bin/python demo.py  -> exit 0",
-                     f"VERIF_PYHF_SRC=/tmp/seed/{name}/src ./check <ID> --tier quick --no-evidence"],
+                     "VERIF_PYHF_SRC=<worktree>/src ./check <ID> --tier quick --no-evidence"],
         "existing_tests": "the sub-agent ran the test files around the touched code on both trees (see notes.md); no test that passes on the unmodified tree fails with the change",
     },
     "caught_by": caught,
